@@ -2,7 +2,7 @@
 from ..core import Run
 from .. import xengine
 
-NAMES = ['h_e_php', 'h_e_bipartite', 'h_e_numeric', 'h_e_simple_graph', 'h_e_two_graphs', 'h_e_degenerate_files', 'h_e_arity', 'h_e_arity_thr', 'h_e_ordering', 'h_e_dags',
+NAMES = ['h_e_php', 'h_e_bipartite', 'h_e_numeric', 'h_e_simple_graph', 'h_e_two_graphs', 'h_e_degenerate_files', 'h_e_arity', 'h_e_arity_thr', 'h_e_seeds', 'h_e_ordering', 'h_e_dags',
          'h_e_simple_formulas', 'h_e_compression', 'h_e_random_cmds', 'h_e_save', 'h_e_output', 'h_e_php3', 'h_e_lattice_pair'] + ['h_e_chain_%d' % i for i in range(6)]
 
 
